@@ -241,7 +241,7 @@ def run_io(case, drv):
 # ----------------------------------------------------------------------------- UAI Markov networks
 def gen_uai_mn(rng, tier):
     from harness import mnet
-    case = mnet.gen_mn_case(rng, nmin=2, nmax=4, dup=False, label_kind="int", name_kind="str",
+    case = mnet.gen_mn_case(rng, nmin=2, nmax=4, dup=None, label_kind="int", name_kind="str",
                             special=rng.choice([None, None, "ten", "one"]))
     used = set()
     case["nodes"] = [ident(rng, used) for _ in case["nodes"]]
